@@ -586,7 +586,7 @@ func (w *World) DeviceDecide(userCode string, accept bool, subject string, scope
 			}
 			ns = hs
 		}
-		if old != nil {
+		if old != nil && !w.DeviceFreshSession {
 			for _, tt := range []fosite.TokenType{fosite.UserCode, fosite.DeviceCode} {
 				if e := old.GetExpiresAt(tt); !e.IsZero() {
 					ns.SetExpiresAt(tt, e)
